@@ -19,7 +19,7 @@ pub fn get() -> FunctionDefinitions {
                 } {
                     let num1: f64 = num1.into();
                     let num2: f64 = num2.into();
-                    Some((num1 - num2).into())
+                    JsonValue::from_finite(num1 - num2)
                 } else {
                     None
                 }
